@@ -20,6 +20,30 @@ THEOREMS = [
     (M, "C09.android_omitted_warn", "under the same hypotheses an argument of the reference that l10n omits yields the warning 'Formatter %p$f not found in translation' and nothing is an error"),
     (M, "C09.android_omitted_warn_general", "the omitted-argument warning is produced whenever check_string gets as far as comparing arguments"),
     (M, "C09.escaped_quote_then_quote_ok", "positive example (formerly finding F14): \"say \\\"hi\\\"\" is quoted, all inner quotes escaped, and gets no error"),
+    # round 4: the checker's predicates as exact characterisations
+    (M, "C09.get_params_java", "get_params is sound and complete for the Java Formatter numbering stated as an inductive RELATION (k$ addresses argument k, ordinary specifiers count on their own): dict entry p->f iff the first specifier addressing p has conversion f; count = number of specifiers; errors = exactly the later uses with another conversion"),
+    (M, "C09.numbered_exists_unique", "the numbering relation admits exactly one numbering of every specifier list"),
+    (M, "C09.get_params_conflict_iff", "get_params reports a conflict iff some argument is addressed with two different conversions"),
+    (M, "C09.apostrophes_error_iff", "check_apostrophes yields anything (always an error) iff: doubled straight quote once escapes are blanked, or an apostrophe survives silencing in a value not enclosed in quotes; for all strings"),
+    (M, "C09.non_simple_data_iff", "non_simple_data(node) is False iff the node has no children, one text child, or exactly one CDATA among white-space-only text children and nothing else; for all child lists"),
+    (M, "C09.textContent_cdata_anywhere", "textContent returns the data of the first CDATA child wherever it stands among the children (not only as firstChild)"),
+    (M, "C09.textContent_no_cdata", "without a CDATA child textContent is '' / the data of the only text child / node.toxml()"),
+    (M, "C09.textContent_simple", "on every node shape the checker accepts textContent is the node's text: '' , the single text child, or THE CDATA section among white-space"),
+    # round 4: the parser
+    (M, "C09.walk_string_entities", "AndroidParser.walk: every <string name=..> child of <resources> yields exactly one AndroidEntity, in document order, key = its name attribute, raw_val = textContent(element); entities+junk of the walk = handleElement of the element children one by one, whatever stands between them"),
+    (M, "C09.walk_only_localizable", "walk(only_localizable=True) (= Parser.parse / __iter__) = the AndroidEntity and XMLJunk entries of walk(), for every input"),
+    (M, "C09.walk_total", "walk never raises on a document whose nodes can be serialised (no ]]> in CDATA, no -- in comments: every tree the XML parser builds)"),
+    (M, "C09.walk_all_sublist", "the all texts of walk() concatenate to: fixed XML head + root attributes (unescaped) + '>' + toxml() of a SUB-SEQUENCE of the root's children in order + '</resources>\\n': every text is a function of the DOM node summary, nothing invented, duplicated or reordered"),
+    (M, "C09.walk_lossless", "no child is lost when the children are <string name> elements, text and comments, no adjacent text nodes, and the list does not end with comment + short white-space"),
+    (M, "C09.walk_roundtrip", "if moreover the root has a child and plain attribute values, the all texts concatenate to the XML declaration + documentElement.toxml() + newline: a document in canonical form is reproduced exactly"),
+    (M, "C09.wrap_unbound_iff", "AndroidEntity.wrap raises UnboundLocalError exactly for an element without child nodes"),
+    (M, "C09.wrap_single_text", "wrap on an element with one text child makes the new value the element's text"),
+    (M, "C09.wrap_single_element_ignored", "wrap on an element whose only child is an element does not write the new value"),
+    (M, "C09.check_positions_inside", "every check result's position is the offset of a U+FFFD in l10n.all (encoding warning), 0, an offset inside the localized value, or an offset inside the reference text (conflicts of the reference)"),
+    (M, "C09.entry_positions", "position(offset) and value_position(offset) of every Android entry are the constant (0, offset)"),
+    (M, "C09.check_result_position", "the (line, column) reported for an Android check result is (0, pos) with pos a natural number"),
+    (M, "C09.docCheck_append", "the checker has no history: results for the entities of a document do not depend on the entities checked before"),
+    (M, "C09.junkCounters_spec", "the only state of walk is the junk counter: XMLJunk keys count start+1, start+2, ... in yield order"),
 ]
 PARTIAL = []
 TRUSTED = [
@@ -28,9 +52,17 @@ TRUSTED = [
     "(tied by the `android.check`, `android.params`, `android.apos` correspondence)",
     "the minidom node (node name, translatable attribute, child node types and data, toxml()) is an input of the model",
     "regexes and the compared string constants are regenerated from /repo by the translator on every run",
+    "round 4: hand-written model CLModel/Checks/AndroidParser.lean of parser/android.py (entity classes, textContent, normalize, "
+    "AndroidParser.walk / handleElement / handleComment, AndroidEntity.wrap, position / value_position) on the minidom NODE SUMMARY "
+    "(tied by the c09.walk, c09.pos, c09.wrap, c09.norm, c09.doccheck correspondence); expat / minidom parsing of the bytes is external: "
+    "the DOM tree (node types, names, attribute list in minidom order, data) is the input",
+    "round 4: the models of minidom Node.toxml() / Document.toxml() (CPython 3.12 writexml with empty indent) and of "
+    "xml.sax.saxutils.quoteattr are contracts of external libraries, tied by c09.toxml and c09.walk",
+    "the string constants of parser/android.py (wrapper texts, tag and attribute names, newline thresholds, strip characters) are "
+    "regenerated into Gen/TablesAndroid.lean by the translator on every run",
 ]
 ASSUMPTIONS = [
-    "strings are <string name=…> elements of a well-formed strings.xml (anything else never becomes an AndroidEntity)",
+    "strings are <string name=…> elements of a well-formed strings.xml (anything else never becomes an AndroidEntity: theorem walk_string_entities)",
     "format arguments are the forms the checker's regex knows: %[n$](s|S|d|f|.Nf), n a single digit 1-9",
 ]
 LEVEL_TEXT = ("Lean 4 theorems over an executable transliteration of AndroidChecker.check (including the regex engine running the "
@@ -38,7 +70,12 @@ LEVEL_TEXT = ("Lean 4 theorems over an executable transliteration of AndroidChec
               "characterised exactly (iff) in terms of regex-free reference notions (hand-written printf lexer, Java-style argument numbering, "
               "escape silencing, quoting, node shape); subset-of-arguments strings only get warnings, omitted arguments get their warning; "
               "the model is tied to the Python by bounded-exhaustive and random differential runs through the real AndroidParser, and an "
-              "oracle built from the generator's tokens checks the property on the implementation directly")
+              "oracle built from the generator's tokens checks the property on the implementation directly. Round 4: the whole of "
+              "parser/android.py is transliterated on the minidom node summary and tied by whole-document streams; theorems: every "
+              "<string name> child yields exactly one entity with key = name and raw_val = textContent, only_localizable = entities + junk, "
+              "the all texts are the serialisation of a sub-sequence of the DOM children (all of them for clean child lists; exact round "
+              "trip on canonical documents), get_params is sound and complete for the Java numbering given as a relation, "
+              "check_apostrophes / non_simple_data / textContent characterised exactly, positions of all results located")
 LEVEL_NOTE = ("trusted: Lean kernel; the hand-written model (validated by correspondence on every run); regex semantics = CPython re on the "
               "audited subset; the minidom node (children by type, data, toxml) is an input of the model. Format forms "
               "the checker's regex does not know (%10$s, %x, %02d, %%) are outside the property's token set")
@@ -363,6 +400,464 @@ def gen_strings(ctx):
     return out
 
 
+# ====================================================================== round 4: the parser (documents)
+# A document = prolog + <resources attrs> + body pieces + </resources> + epilog.  A body piece is
+# (xml, kind, info): kind in comment / text (text and white-space: adjacent ones fuse into one DOM text node) /
+# cdata / pi / string (info = (key, expected raw_val | None)) / other (an element the parser makes no entity of).
+class Piece:
+    __slots__ = ("xml", "kind", "key", "raw", "nl")
+
+    def __init__(self, xml, kind, key=None, raw=None, nl=0):
+        self.xml, self.kind, self.key, self.raw, self.nl = xml, kind, key, raw, nl
+
+
+def P_comment(data):
+    return Piece("<!--%s-->" % data, "comment")
+
+
+def P_text(data):
+    return Piece(data, "text", nl=data.count("\n"))
+
+
+def P_cdata(data):
+    return Piece("<![CDATA[%s]]>" % data, "cdata", nl=data.count("\n"))
+
+
+def P_string(key, content, raw, extra=""):
+    return Piece('<string name="%s"%s>%s</string>' % (key, extra, content), "string", key, raw)
+
+
+P_C, P_W1, P_W2, P_T, P_D, P_PI = P_comment(" c "), P_text("\n  "), P_text("\n\n  "), P_text("txt"), P_cdata("x"), Piece("<?pi d?>", "pi")
+P_O = Piece('<plurals name="p"><item quantity="one">x</item></plurals>', "other")
+DOC_SMALL = ["c", "w1", "w2", "s", "o", "p", "d", "t"]
+DOC_EXTRA_PIECES = [
+    P_comment("a\n   b "), P_comment(""), P_comment(" "), P_comment("\t x \t\n\n y"),
+    P_text(" "), P_text("\n"), P_text("\n\n\n"), P_text("\t\n\t"), P_text("a\nb\nc"), P_text("&amp;&lt;&quot;'"),
+    P_cdata("\n\n"), P_cdata(" "), P_cdata("a\n"),
+    Piece("<?xml-stylesheet href='a'?>", "pi"),
+    Piece("<string>noname</string>", "other"), Piece("<skip/>", "other"),
+    Piece('<string-array name="a"><item>x</item></string-array>', "other"),
+    Piece('<string xmlns:x="u" x:name="q">v</string>', "other"),
+    Piece('<item name="i">v</item>', "other"),
+]
+STRING_BODIES = [  # (content, expected raw_val | None, extra attributes)
+    ("v", "v", ""), ("it's", "it's", ""), ("%1$s and %d", "%1$s and %d", ""), ("", "", ""),
+    ("<![CDATA[a<b]]>", "a<b", ""), (" \n <![CDATA[b]]> \n", "b", ""), ("<![CDATA[a]]><![CDATA[b]]>", "a", ""),
+    ("x<![CDATA[c]]>", "c", ""), ("a<b>c</b>", None, ""), ("<b>c</b>", None, ""), ("<!--n-->", None, ""),
+    ("&amp; &lt; &quot; &gt; '", "& < \" > '", ""), ("nope", "nope", ' translatable="false"'),
+    ("q", "q", " b='x\"y&gt;'"), ("�", "�", ""), ("@string/foo", "@string/foo", ""),
+    ('"it\'s"', '"it\'s"', ""), ("\\'\\\"", "\\'\\\"", ""),
+]
+ROOTS = ["<resources>", '<resources xmlns:xliff="urn:oasis:names:tc:xliff:document:1.2">',
+         '<resources b="2" a="1 &amp; &lt;&quot;&gt;">', "<resources\n   a = 'x'  >"]
+PROLOGS = ["", '<?xml version="1.0" encoding="utf-8"?>\n', '<?xml version="1.0"?><!-- top --><?p q?>\n',
+           '<!DOCTYPE resources [<!ENTITY x "y">]>\n', '<!DOCTYPE resources SYSTEM "foo.dtd">',
+           '<!DOCTYPE resources PUBLIC "-//A//B" "foo.dtd" [<!ELEMENT resources ANY>]>']
+EPILOGS = ["\n", "", "<!-- after -->\n", "<?e f?>"]
+JUNK_DOCS = [
+    "", " ", "\n", "plain text", "<resources>", "<resources><string name='a'>x</resources>", "<resource/>", "<Resources></Resources>",
+    '<ns:resources xmlns:ns="u"><string name="a">x</string></ns:resources>', "<resources/><resources/>", "<resources>&nbsp;</resources>",
+    "<resources>]]></resources>", "<resources>\x00</resources>", "<resources>\ud800</resources>", "<a><resources/></a>",
+    '<!DOCTYPE a [<!ENTITY x "y">]><?p q?><!--c--><a b="1 &amp; 2">&x;<![CDATA[z]]><c/></a><!--d-->',
+    '<!DOCTYPE a SYSTEM "s.dtd"><a/>', '<!DOCTYPE a PUBLIC "p" "s"><a>t</a>', "<resources a='1' a='2'/>",
+    "<?xml version='1.0' encoding='latin-1'?><resources/>", "﻿<resources/>", "<resources><string name='a'>x</string>",
+]
+
+
+def build_doc(pieces, root=0, prolog=1, epilog=0):
+    body = "".join(p.xml for p in pieces)
+    r = ROOTS[root]
+    if not pieces and root == 0 and prolog % 2 == 0:
+        return PROLOGS[prolog] + "<resources/>" + EPILOGS[epilog]
+    return PROLOGS[prolog] + r + body + "</resources>" + EPILOGS[epilog]
+
+
+def small_piece(sym, i):
+    if sym == "s":
+        return P_string("k%d" % i, "v%d" % i, "v%d" % i)
+    return {"c": P_C, "w1": P_W1, "w2": P_W2, "o": P_O, "p": P_PI, "d": P_D, "t": P_T}[sym]
+
+
+def norm_expected(data):
+    """independent statement of `normalize`: blanks and tabs are removed at both ends and around every newline"""
+    return "\n".join(line.strip(" \t") for line in data.split("\n"))
+
+
+def dom_nodes(pieces):
+    """DOM children by kind, adjacent text pieces fused: [kind, newlines, piece, data | None]"""
+    nodes = []
+    for p in pieces:
+        data = p.xml[4:-3] if p.kind == "comment" else (p.xml if p.kind == "text" and "&" not in p.xml else None)
+        if p.kind == "text" and nodes and nodes[-1][0] == "text":
+            prev = nodes[-1]
+            nodes[-1] = ["text", prev[1] + p.nl, None, None if (prev[3] is None or data is None) else prev[3] + data]
+        else:
+            nodes.append([p.kind, p.nl, p, data])
+    return nodes
+
+
+def expected_of(pieces):
+    """independent expectation from the construction: for every <string name=…> piece, in order,
+    (key, raw_val | None, comment attached?, expected comment value | None) and the number of elements that are not
+    entities.  Attachment rule as documented in the parser: a comment belongs to the element that follows it, possibly
+    after one white-space / CDATA node with at most one newline; consecutive comments separated by at most one newline
+    are one comment, whose value is the normalised text of its parts."""
+    nodes = dom_nodes(pieces)
+    ents, others = [], 0
+    for i, (kind, _, p, _d) in enumerate(nodes):
+        if kind == "other":
+            others += 1
+        if kind != "string":
+            continue
+        j = i - 1
+        if j >= 0 and nodes[j][0] in ("text", "cdata") and nodes[j][1] <= 1:
+            # a CDATA node right after a comment is taken as white-space of the entity, a text node too
+            if j - 1 >= 0 and nodes[j - 1][0] == "comment":
+                j -= 1
+        attached = j >= 0 and nodes[j][0] == "comment"
+        cval = None
+        if attached:
+            parts = [nodes[j][3]]
+            k = j
+            while True:
+                if k - 1 >= 0 and nodes[k - 1][0] == "comment":
+                    k -= 1
+                    parts.insert(0, nodes[k][3])
+                elif k - 2 >= 0 and nodes[k - 1][0] == "text" and nodes[k - 1][1] <= 1 and nodes[k - 2][0] == "comment":
+                    parts.insert(0, nodes[k - 1][3])
+                    k -= 2
+                    parts.insert(0, nodes[k][3])
+                else:
+                    break
+            if all(x is not None for x in parts):
+                cval = "".join(norm_expected(x) for x in parts)
+        ents.append((p.key, p.raw, attached, cval))
+    return ents, others
+
+
+def gen_docs(ctx):
+    """lazily yields (stratum, text | None, pieces | None)"""
+    rng = ctx.rng("c09", "docs")
+    quick = ctx.tier == "quick"
+    yield ("doc.none", None, None)
+    for t in JUNK_DOCS:
+        yield ("doc.junk", t, None)
+    # exhaustive sequences over the small alphabet
+    for n in range(0, (4 if quick else 5) + 1):
+        for syms in itertools.product(DOC_SMALL, repeat=n):
+            pieces = [small_piece(x, i) for i, x in enumerate(syms)]
+            yield ("doc.small", build_doc(pieces), pieces)
+    # roots / prologs / epilogs over a few bodies
+    bodies = [[], [P_W1, P_string("a", "x", "x"), P_W1], [P_C, P_W1, P_string("a", "x", "x")], [P_T]]
+    for r in range(len(ROOTS)):
+        for pl in range(len(PROLOGS)):
+            for ep in range(len(EPILOGS)):
+                for b in bodies:
+                    yield ("doc.frame", build_doc(b, r, pl, ep), b)
+    # every string body, alone and after a comment
+    for i, (content, raw, extra) in enumerate(STRING_BODIES):
+        st = P_string("s%d" % i, content, raw, extra)
+        for pre in ([], [P_C], [P_C, P_W1], [P_C, P_W2], [P_C, P_D], [P_W1, DOC_EXTRA_PIECES[0], P_W1, P_C, P_text("\n")]):
+            yield ("doc.strings", build_doc(pre + [st, P_W1]), pre + [st, P_W1])
+    # random longer bodies over everything
+    for _ in range(ctx.n(2000, 60000)):
+        pieces = []
+        for i in range(rng.randrange(1, 11)):
+            x = rng.random()
+            if x < 0.55:
+                pieces.append(small_piece(rng.choice(DOC_SMALL), i))
+            elif x < 0.8:
+                pieces.append(rng.choice(DOC_EXTRA_PIECES))
+            else:
+                content, raw, extra = rng.choice(STRING_BODIES)
+                key = rng.choice(["k%d" % i, "dup", ""])
+                pieces.append(P_string(key, content, raw, extra))
+        root = rng.randrange(len(ROOTS)) if rng.random() < 0.3 else 0
+        pl = rng.randrange(len(PROLOGS)) if rng.random() < 0.3 else 1
+        ep = rng.randrange(len(EPILOGS)) if rng.random() < 0.3 else 0
+        yield ("doc.random", build_doc(pieces, root, pl, ep), pieces)
+
+
+def lossless_expected(text, pieces):
+    """True when the document is in the parser's own canonical form and of the shape for which nothing may be lost
+    (theorem C09.walk_lossless): standard XML declaration, <resources> without attributes, children that are plain
+    <string name=…> elements, text and comments, not ending with comment + white-space of at most one newline.
+    Then the `all` texts of walk() must concatenate to the document itself."""
+    if pieces is None or not text.startswith(PROLOGS[1] + "<resources>") or not text.endswith("</resources>\n"):
+        return False
+    for p in pieces:
+        if p.kind == "string":
+            if not p.raw or p.xml != '<string name="%s">%s</string>' % (p.key, p.raw) or not p.key or any(c in p.raw for c in "&<>\"'"):
+                return False
+        elif p.kind == "comment":
+            if "&" in p.xml:
+                return False
+        elif p.kind == "text":
+            if any(c in p.xml for c in "&<>\"") or "\r" in p.xml:
+                return False
+        elif p.kind == "cdata":
+            # a CDATA section between the elements is kept as white-space unless a comment is involved
+            if any(q.kind == "comment" for q in pieces) or "]]>" in p.xml[9:-3]:
+                return False
+        else:
+            return False
+    # trailing comment + short white-space: the white-space is consumed by handleComment and never yielded
+    nodes = []
+    for p in pieces:
+        if p.kind == "text" and nodes and nodes[-1][0] == "text":
+            nodes[-1] = ("text", nodes[-1][1] + p.nl)
+        else:
+            nodes.append((p.kind, p.nl))
+    if len(nodes) >= 2 and nodes[-1][0] == "text" and nodes[-1][1] <= 1 and nodes[-2][0] == "comment":
+        return False
+    return True
+
+
+def doc_oracle(pieces, full, loc, text=None):
+    """None or a message.  `full` / `loc` = adapter results of walk() / walk(only_localizable=True)."""
+    for name, r in (("walk()", full), ("walk(only_localizable=True)", loc)):
+        if r.get("canon") == "raise":
+            return "%s raised %s" % (name, r.get("exc"))
+        if r.get("history_same") is False:
+            return "%s: a parser object that was used before gives other entries than a fresh one" % name
+        if r.get("parse_same") is False:
+            return "Parser.parse() differs from walk(only_localizable=True)"
+        if "?" in r["facts"]["classes"]:
+            return "%s yields an object of an unknown class" % name
+    fc, lc = full["facts"]["classes"], loc["facts"]["classes"]
+    if [c for c in fc if c in "NJ"] != lc:
+        return "only_localizable walk is not the entities and junk of the full walk: %s vs %s" % ("".join(fc), "".join(lc))
+    if full["facts"]["entities"] != loc["facts"]["entities"]:
+        return "entities of walk() and walk(only_localizable=True) differ"
+    if pieces is None:
+        return None
+    if text is not None and lossless_expected(text, pieces) and "".join(full["facts"]["alls"]) != text:
+        return "the all texts of walk() concatenate to %r, not to the (canonical, comment/string/text only) document" % (
+            "".join(full["facts"]["alls"])[:300],)
+    ents, others = expected_of(pieces)
+    got = full["facts"]["entities"]
+    if [e[0] for e in got] != [e[0] for e in ents]:
+        return "entity keys %r, the document has the <string name> elements %r" % ([e[0] for e in got], [e[0] for e in ents])
+    if full["facts"]["junk"] != others:
+        return "%d junk entries for %d elements that are not <string name=…>" % (full["facts"]["junk"], others)
+    # CDATA sections and processing instructions between the children of <resources> are outside the attachment rule
+    # (the parser drops nodes around them, see NOTES "Round 4: observations"): no demand there
+    attach_rule_applies = not any(p.kind in ("cdata", "pi") for p in pieces)
+    for (key, raw, val, cval), (_, eraw, attached, ecval) in zip(got, ents):
+        if raw != val:
+            return "val != raw_val for %r" % key
+        if eraw is not None and raw != eraw:
+            return "raw_val of %r is %r, the element's text is %r" % (key, raw, eraw)
+        if attach_rule_applies and attached != (cval is not None):
+            return "comment of %r: attached=%r, by the attachment rule %r" % (key, cval is not None, attached)
+        if attach_rule_applies and attached and ecval is not None and cval != ecval:
+            return "comment of %r has the value %r, the normalised text of the comment is %r" % (key, cval, ecval)
+    return None
+
+
+def run_docs(ctx, out):
+    cases = list(gen_docs(ctx))
+    seen, uniq = set(), []
+    for st, text, pieces in cases:
+        if text in seen:
+            continue
+        seen.add(text)
+        uniq.append((st, text, pieces))
+    cases = uniq
+    full = pool.pmap("impl.android", "impl_walk", [[t, False] for _, t, _ in cases], timeout=10.0, batch=128)
+    loc = pool.pmap("impl.android", "impl_walk", [[t, True] for _, t, _ in cases], timeout=10.0, batch=128)
+    lines, owner = [], []
+    for i, (a, b) in enumerate(zip(full, loc)):
+        for tag, x in (("full", a), ("loc", b)):
+            if "r" in x:
+                lines.append(x["r"]["line"])
+                owner.append((i, tag))
+    model = C.run_driver_parallel(lines) if ctx.model_ok else [None] * len(lines)
+    mo = dict(zip(owner, model))
+    for i, ((st, text, pieces), a, b) in enumerate(zip(cases, full, loc)):
+        out.evaluations += 1
+        out.count("cases." + st)
+        inp = {"doc": text, "stratum": st}
+        if "exc" in a or "exc" in b:
+            x = a if "exc" in a else b
+            out.violations.append({"what": "adapter/parser raised %s: %s" % (x["exc"], x.get("msg")), "input": inp})
+            continue
+        bad = doc_oracle(pieces, a["r"], b["r"], text)
+        if pieces is not None and lossless_expected(text, pieces):
+            out.count("oracle.lossless")
+        if bad:
+            out.count("violations.doc")
+            if out.distribution["violations.doc"] <= 200:
+                out.violations.append({"what": bad, "input": inp, "classes": "".join(a["r"].get("facts", {}).get("classes", []))})
+        for tag, x in (("full", a["r"]), ("loc", b["r"])):
+            m = mo.get((i, tag))
+            if m is not None and m != x["canon"]:
+                out.count("disagreements.walk")
+                if not bad and len(out.disagreements) < 500:
+                    out.disagreements.append({"op": "c09.walk", "only_localizable": tag == "loc", "input": inp,
+                                              "impl": x["canon"][:1500], "model": m[:1500]})
+        if a["r"].get("canon") != "raise":
+            out.nontrivial.add("doc:" + "".join(a["r"]["facts"]["classes"]))
+    texts = [t for _, t, _ in cases]
+    # positions: position(offset) / value_position(offset) of every entry
+    rng = ctx.rng("c09", "pos")
+    sample = [t for t in texts if t is None or rng.random() < (0.08 if ctx.tier == "quick" else 0.02)]
+    pargs = [[t, off] for t in sample for off in (0, -1, 7, -12, 10 ** 9)]
+    pres = pool.pmap("impl.android", "impl_pos", pargs, timeout=10.0, batch=128)
+    pl = [x["r"]["line"] for x in pres if "r" in x]
+    pm = iter(C.run_driver_parallel(pl) if ctx.model_ok else [None] * len(pl))
+    for (t, off), x in zip(pargs, pres):
+        out.evaluations += 1
+        out.count("cases.pos")
+        if "exc" in x:
+            out.violations.append({"what": "position()/value_position() raised %s: %s" % (x["exc"], x.get("msg")),
+                                   "input": {"doc": t, "offset": off}})
+            continue
+        r = x["r"]
+        m = next(pm)
+        if not r["wellformed"] or not r["defaults_zero"]:
+            out.violations.append({"what": "position()/value_position() of an Android entry is not a pair of integers "
+                                           "(or not (0, 0) by default)", "input": {"doc": t, "offset": off}, "got": r["canon"]})
+        elif m is not None and m != r["canon"]:
+            out.disagreements.append({"op": "c09.pos", "input": {"doc": t, "offset": off}, "impl": r["canon"][:600], "model": m[:600]})
+    # toxml of every node of a sample of documents, and of hand-made nodes the XML parser cannot produce
+    tsample = [["text", t] for t in texts if t is not None and rng.random() < (0.05 if ctx.tier == "quick" else 0.01)]
+    tsample += [["text", t] for t in JUNK_DOCS]
+    hand = [["C", "a]]>b"], ["C", "]]"], ["C", "]]>"], ["M", "a--b"], ["M", "-"], ["M", "--"], ["M", "a-"], ["T", ""], ["T", "<&>\"'"],
+            ["P", "t", ""], ["E", "a", [], []], ["E", "a", [["x", "<&>\"'\n"], ["y", ""]], [["T", "t"], ["C", "c"]]],
+            ["E", "a", [], [["E", "b", [], [["C", "x]]>"]]]]], ["E", "a", [], [["M", "x--"], ["T", "t"]]], ["E", "a", [], [["T", ""]]]]
+    tsample += [["build", h] for h in hand]
+    tres = pool.pmap("impl.android", "impl_toxml", tsample, timeout=10.0, batch=64)
+    tl, tc = [], []
+    for x, a in zip(tres, tsample):
+        if "exc" in x:
+            out.violations.append({"what": "toxml adapter raised %s: %s" % (x["exc"], x.get("msg")), "input": {"toxml": a}})
+            continue
+        tl += x["r"]["lines"]
+        tc += x["r"]["canons"]
+    tm = C.run_driver_parallel(tl) if ctx.model_ok else [None] * len(tl)
+    for line, c, m in zip(tl, tc, tm):
+        out.evaluations += 1
+        out.count("cases.toxml")
+        if c == "raise":
+            out.nontrivial.add("toxml:raise")
+        if m is not None and m != c:
+            out.disagreements.append({"op": "c09.toxml", "line": line[:600], "impl": c[:600], "model": m[:600]})
+    # AndroidEntity.wrap(raw_val) of every entity of a sample of documents
+    wsample = [t for t in texts if t is not None and "<string" in t and rng.random() < (0.1 if ctx.tier == "quick" else 0.03)]
+    wargs = [[t, raw] for t in wsample for raw in ("new", "a <b>&amp;</b> \"q\" 'r'", "x]]>y", "")]
+    wres = pool.pmap("impl.android", "impl_wrap", wargs, timeout=10.0, batch=128)
+    wl = [x["r"]["line"] for x in wres if "r" in x]
+    wm = iter(C.run_driver_parallel(wl) if ctx.model_ok else [None] * len(wl))
+    for (t, raw), x in zip(wargs, wres):
+        out.evaluations += 1
+        out.count("cases.wrap")
+        if "exc" in x:
+            # anything but the two modelled exceptions
+            out.disagreements.append({"op": "c09.wrap", "input": {"doc": t, "raw": raw}, "impl": "%s: %s" % (x["exc"], x.get("msg"))})
+            continue
+        m = next(wm)
+        if x["r"]["roundtrip_bad"]:
+            k, allt, back = x["r"]["roundtrip_bad"][0]
+            out.violations.append({"what": "wrap(%r) of the plain string %r gives %r, which parses back to %r" % (raw, k, allt[:200], back),
+                                   "input": {"doc": t, "raw": raw}})
+        elif m is not None and m != x["r"]["canon"]:
+            out.disagreements.append({"op": "c09.wrap", "input": {"doc": t, "raw": raw}, "impl": x["r"]["canon"][:800], "model": m[:800]})
+        if "raise:" in x["r"]["canon"]:
+            out.nontrivial.add("wrap:" + x["r"]["canon"].split("raise:")[1][:12])
+    # normalize / count
+    alpha = [" ", "\t", "\n", "a", "\r"]
+    strs = ["".join(p) for n in range(0, 6 if ctx.tier == "quick" else 7) for p in itertools.product(alpha, repeat=n)]
+    nres = pool.pmap("impl.android", "impl_norm", [[s] for s in strs], timeout=5.0, batch=512)
+    nm = C.run_driver_parallel(["c09.norm " + C.enc(s) for s in strs]) if ctx.model_ok else [None] * len(strs)
+    for s, x, m in zip(strs, nres, nm):
+        out.evaluations += 1
+        out.count("cases.norm")
+        if "exc" in x:
+            out.violations.append({"what": "normalize raised on %r" % s, "input": {"string": s}})
+        elif m is not None and m != x["r"]:
+            out.disagreements.append({"op": "c09.norm", "string": s, "impl": x["r"], "model": m})
+
+
+# ------------------------------------------------------------------ document pairs through the checker
+def gen_doc_pairs(ctx):
+    rng = ctx.rng("c09", "pairs")
+    vals = [c for c, _, _ in STRING_BODIES] + ["%s", "%d %s", "%2$s %1$d", "%1$s %1$d", "it\\'s", '""', "a'b"]
+    for _ in range(ctx.n(1000, 30000)):
+        n = rng.randrange(1, 6)
+        keys = ["k%d" % i for i in range(n)]
+        ref = []
+        for k in keys:
+            if rng.random() < 0.3:
+                ref.append(rng.choice([P_C, P_W1, P_W2]))
+            ref.append(P_string(k, rng.choice(vals), None, rng.choice(["", "", "", ' translatable="false"'])))
+        if rng.random() < 0.2:
+            ref.append(P_string(rng.choice(keys), rng.choice(vals), None))      # duplicate key: the last one wins
+        l10n = []
+        lk = [k for k in keys if rng.random() < 0.8] + (["extra"] if rng.random() < 0.2 else [])
+        rng.shuffle(lk)
+        for k in lk:
+            if rng.random() < 0.4:
+                l10n.append(rng.choice([P_C, P_W1, P_W2, P_D, P_O, P_PI]))
+            l10n.append(P_string(k, rng.choice(vals), None, rng.choice(["", "", "", "", ' translatable="false"'])))
+        if lk and rng.random() < 0.15:
+            l10n.append(P_string(rng.choice(lk), rng.choice(vals), None))
+        yield build_doc(ref, rng.randrange(2)), build_doc(l10n, rng.randrange(2))
+
+
+DOC_HEAD = ('<?xml version="1.0" encoding="utf-8"?>\n'
+            '<resources xmlns:xliff="urn:oasis:names:tc:xliff:document:1.2">\n')
+
+
+def value_document(v):
+    """the document impl/android.py `document()` builds for a Value (same text), so that a sample of the `android.check`
+    cases also goes through the parser MODEL: entity.all / val / node come from the DOM summary, not from the adapter"""
+    attrs = ' name="foo"'
+    if v.tr is not None:
+        attrs += ' translatable="%s"' % v.tr
+    pre = "  <!-- a comment -->\n  " if v.comment else "  "
+    return "%s%s<%s%s>%s</%s>\n</resources>\n" % (DOC_HEAD, pre, v.tag, attrs, "".join(t.xml for t in v.toks), v.tag)
+
+
+def gen_value_pairs(ctx):
+    rng = ctx.rng("c09", "valuepairs")
+    keep = 0.012 if ctx.tier == "quick" else 0.004
+    for st, r, l in gen_cases(ctx):
+        if st != "tags" and rng.random() < keep:
+            yield value_document(r), value_document(l)
+
+
+def run_doc_pairs(ctx, out):
+    pairs = list(gen_doc_pairs(ctx)) + list(gen_value_pairs(ctx))
+    res = pool.pmap("impl.android", "impl_doccheck", [[r, l] for r, l in pairs], timeout=10.0, batch=64)
+    lines = [x["r"]["line"] for x in res if "r" in x]
+    model = iter(C.run_driver_parallel(lines) if ctx.model_ok else [None] * len(lines))
+    for (r, l), x in zip(pairs, res):
+        out.evaluations += 1
+        out.count("cases.docpair")
+        inp = {"ref_doc": r, "l10n_doc": l}
+        if "exc" in x:
+            out.violations.append({"what": "adapter raised %s: %s" % (x["exc"], x.get("msg")), "input": inp})
+            continue
+        v = x["r"]
+        m = next(model)
+        bad = None
+        if v["canon"] == "raise":
+            bad = "parsing raised %s" % v.get("exc")
+        elif v["raised"]:
+            bad = "the checker raised %s for %r" % (v["raised"][0]["exc"], v["raised"][0]["key"])
+        elif not v["history_same"]:
+            bad = "one AndroidChecker object used for the whole document reports differently from a fresh checker per entity"
+        elif " ?" in v["canon"]:
+            bad = "a check result's position is not (0, non-negative integer): %s" % v["canon"][:300]
+        if bad:
+            out.violations.append({"what": bad, "input": inp})
+        elif m is not None and m != v["canon"]:
+            out.disagreements.append({"op": "c09.doccheck", "input": inp, "impl": v["canon"][:1200], "model": m[:1200]})
+        if " ; " in v["canon"]:
+            out.nontrivial.add("pair:" + v["canon"][:200])
+
+
 # ------------------------------------------------------------------ run
 def run_chunk(ctx, out, cases):
     # within a chunk the same (ref, l10n) pair is evaluated once
@@ -427,6 +922,10 @@ def run(ctx):
                 "(thorough: also length 3 against one reference), seeded random "
                 "longer pairs, other resource tags; plus raw strings through get_params/check_apostrophes. "
                 "non-trivial = the checker yields at least one result; distinct = distinct canonical result lists")
+    out.rule += (". Round 4: whole strings.xml documents (prolog x root x body pieces x epilog; every body of <= 4 (quick) / 5 pieces over "
+                 "comment, white-space with 1 / 2 newlines, <string>, <plurals>, PI, CDATA, text; 18 string bodies x 6 prefixes; random longer bodies "
+                 "over 27 pieces; 22 junk documents; nothing loaded) through walk() and walk(only_localizable=True), position()/value_position(), "
+                 "toxml() of every node, wrap(); normalize on all short strings; random document pairs through parser + checker")
     gen = gen_cases(ctx)
     while True:
         chunk = list(itertools.islice(gen, 150000))
@@ -456,6 +955,14 @@ def run(ctx):
             out.disagreements.append({"op": "android.params", "string": s, "impl": ia, "model": ma})
         if mb is not None and mb != ib:
             out.disagreements.append({"op": "android.apos", "string": s, "impl": ib, "model": mb})
+    # round 4: whole documents through AndroidParser.walk (c09.walk / c09.pos / c09.toxml / c09.norm) and pairs of
+    # documents through parser + checker (c09.doccheck)
+    import time as _time
+    t0 = _time.time()
+    run_docs(ctx, out)
+    t1 = _time.time()
+    run_doc_pairs(ctx, out)
+    out.notes.append("round-4 streams: documents %.1fs, document pairs %.1fs" % (t1 - t0, _time.time() - t1))
     return out
 
 
